@@ -35,7 +35,9 @@ func NewParams(maturity int) *chaincfg.Params {
 }
 
 // Every spendable legacy output is
-//   [<tag> OP_DROP] OP_NOP*pad [OP_0 OP_IF OP_CHECKMULTISIG*n OP_ENDIF] OP_1 OP_EQUAL
+//
+//	[<tag> OP_DROP] OP_NOP*pad [OP_0 OP_IF OP_CHECKMULTISIG*n OP_ENDIF] OP_1 OP_EQUAL
+//
 // and is spent by the signature script OP_1 (OP_2 for the "badscript" class).
 // The OP_CHECKMULTISIGs sit in a branch that is never executed; each counts 20
 // legacy signature operations (cost 80) for the transaction creating the output.
